@@ -43,10 +43,18 @@ def _code_objects(mod):
 
 
 class StepBudget:
-    def __init__(self, modules):
+    def __init__(self, modules, extra_modules=()):
+        """modules: their events always count. extra_modules: monitored too, but their events count only
+        in runs started with wide=True (used to bound evaluation, not parsing)."""
         self.codes = []
         for m in modules:
             self.codes += _code_objects(m)
+        self.narrow = {id(c) for c in self.codes}
+        for m in extra_modules:
+            for c in _code_objects(m):
+                if id(c) not in self.narrow:
+                    self.codes.append(c)
+        self.wide = False
         self.count = 0
         self.limit = None
         self.tripped = None
@@ -71,6 +79,8 @@ class StepBudget:
     def _tick(self, code):
         if not self.active:
             return
+        if not self.wide and id(code) not in self.narrow:
+            return
         self.count += 1
         if self.count > self.limit:
             if self.tripped is None:
@@ -84,9 +94,9 @@ class StepBudget:
         if dst < src:           # loop back-edge
             self._tick(code)
 
-    def run(self, limit, fn, *args):
+    def run(self, limit, fn, *args, wide=False):
         """Run fn under a budget. Returns (status, value, events): status ok / raised / budget."""
-        self.count, self.limit, self.tripped, self.active = 0, limit, None, True
+        self.count, self.limit, self.tripped, self.active, self.wide = 0, limit, None, True, wide
         try:
             v = fn(*args)
             return "ok", v, self.count
